@@ -329,6 +329,39 @@ def _views(c, prog):
     c.floor("R7.byte-views", 13)
 
 
+def _classify_total(c, prog, ops):
+    """R8: Instructions::next and fmt_asm classify every opcode byte in the Legacy context; the Ordinary arm unwraps
+    Ordinary::try_from_all. Exhaustive table over all 256 codes: whenever the Legacy classification ends in the Ordinary arm,
+    the code is in the ordinary-opcode table (otherwise iterating a script that contains that byte panics)."""
+    from .c15 import Fn, decide
+    C = Fn(prog, "opcodes::All::classify")
+    T = Fn(prog, "opcodes::Ordinary::try_from_all")
+    leaves = {"arg1.code": "c", "discr(arg2)": "ctx"}
+    env0 = {}
+    for name, v in ops.items():
+        leaves["opcodes::all::%s.code" % name] = "K_" + name
+        env0["K_" + name] = v
+    LEGACY = None
+    for v in prog.types["opcodes::ClassifyContext"]["variants"]:
+        if v["name"] == "Legacy":
+            LEGACY = v.get("discr", v.get("idx"))
+    if LEGACY is None:
+        LEGACY = [v["name"] for v in prog.types["opcodes::ClassifyContext"]["variants"]].index("Legacy")
+    bad, undec, n_ord = [], [], 0
+    for code in range(256):
+        r = decide(C.L, dict(env0, c=code, ctx=int(LEGACY)), leaves)
+        if r[0] != "ret":
+            undec.append((code, r))
+            continue
+        if "try_from_all" in r[1]:
+            n_ord += 1
+            t = decide(T.L, dict(env0, c=code), leaves)
+            if not (t[0] == "ret" and t[1].startswith("std::option::Option::Some")):
+                bad.append(code)
+    c.inst("R8.classify-total", "Legacy context: every code classified Ordinary is in the ordinary-opcode table (256 codes)", not bad and not undec and n_ord >= 40,
+           "codes reaching the unwrap without a table entry: %s; undecided %s; ordinary codes %d" % ([hex(x) for x in bad[:8]], undec[:2], n_ord), C.f.where(), C.f.path)
+
+
 def run(c, prog, ctx):
     c.explanation = (
         "Static decision of the structural clauses of C16: (R1) the exact truth table of every template predicate over its own "
@@ -347,6 +380,7 @@ def run(c, prog, ctx):
     _thresholds(c, prog, ops)
     _ints_and_verify(c, prog, ops)
     _views(c, prog)
+    _classify_total(c, prog, ops)
     # last clause of the property — "its text form parses back to the same address" — is C06's subject: its rules (payload
     # layouts, program-length and padding tables of the blech32 reader, prefix matching, variant by version) are evaluated here too
     if not ctx.get("no_deps"):
